@@ -95,7 +95,7 @@ def finish(a, src, meta):
     dst = os.path.join(ROOT, "seeded", a.seed_id)
     os.makedirs(dst, exist_ok=True)
     for f in ("patch.diff", "demo.py", "notes.md"):
-        if os.path.exists(os.path.join(src, f)):
+        if os.path.exists(os.path.join(src, f)) and os.path.abspath(os.path.join(src, f)) != os.path.abspath(os.path.join(dst, f)):
             shutil.copy(os.path.join(src, f), os.path.join(dst, f))
     old = {}
     mp = os.path.join(dst, "meta.json")
